@@ -32,8 +32,8 @@ PROFILES.append(
     S.profile(min_tasks=2, max_tasks=3, p_resources=100, n_workers=(1, 2), p_select=20, p_cumulative=10, p_delay=70, task_constraints=(0, 1), optional_rules=(0, 1), resource_constraints=(0, 1),
               indicators=(1, 2), indicator_types=["ResourceUtilization", "ResourceCost", "NumberTasksAssigned"], p_work_amount=10, p_optional=70)
 )
-PROFILE_DEL = S.profile(min_tasks=2, max_tasks=4, horizon=(2, 6), p_no_horizon=10, p_resources=65, task_constraints=(0, 3), optional_rules=(0, 1), resource_constraints=(0, 1), buffers=(0, 1), p_work_amount=30, p_delay=25, **OPT)
-PROFILE_COMP = S.profile(min_tasks=2, max_tasks=3, horizon=(2, 5), p_no_horizon=5, p_resources=60, task_constraints=(0, 2), optional_rules=(0, 2), resource_constraints=(0, 1), buffers=(0, 1), p_work_amount=30, p_delay=25, **OPT)
+PROFILE_DEL = S.profile(min_tasks=2, max_tasks=4, horizon=(2, 6), p_no_horizon=10, p_resources=65, task_constraints=(0, 3), optional_rules=(0, 1), resource_constraints=(0, 1), buffers=(0, 1), p_work_amount=30, p_delay=25, p_group_precedence=15, **OPT)
+PROFILE_COMP = S.profile(min_tasks=2, max_tasks=3, horizon=(2, 5), p_no_horizon=5, p_resources=60, task_constraints=(0, 2), optional_rules=(0, 2), resource_constraints=(0, 1), buffers=(0, 1), p_work_amount=30, p_delay=25, p_group_precedence=15, **OPT)
 
 
 def connected(spec, name):
